@@ -174,9 +174,113 @@ func entropyCase(r *mon.Run, c Case) {
 	entropy.Check(r, "C02", r.Rng(fmt.Sprintf("c02/entropy/%d", c.Idx)), func(sig, what string) { r.Violate(sig, what, c) })
 }
 
+// mixedFaultBatches: batches that hold entries with DIFFERENT kinds of fault at once, in every order: entries the
+// verifier refuses when they are added (truncated or overlong signature, S >= L, undecodable key, wrong-length key)
+// next to well-formed entries that merely do not verify (a flipped scalar bit, another message, another signer's key)
+// and honest ones. Every order of four entries drawn from the nine kinds; each reported bit must equal the single
+// verification of that entry, the flag their conjunction, batch-only verification likewise.
+func mixedFaultBatches(r *mon.Run, c Case) {
+	rng := r.Rng(fmt.Sprintf("c02/mixed/%d", c.Idx))
+	priv := ed25519.NewKeyFromSeed(mon.Bytes(rng, 32))
+	pub := priv.Public().(ed25519.PublicKey)
+	exp, _ := ed25519.NewExpandedPublicKey(pub)
+	msg := mon.Bytes(rng, 1+rng.IntN(60))
+	sig := ed25519.Sign(priv, msg)
+	flipS := append([]byte{}, sig...)
+	flipS[32+rng.IntN(31)] ^= 1 << uint(rng.IntN(8))
+	sGeL := append([]byte{}, sig...)
+	copy(sGeL[32:], ref.LE32(new(big.Int).Add(ref.FromLE(sig[32:]), ref.L)))
+	undec := make([]byte, 32)
+	undec[0] = 2
+	type ent struct {
+		name string
+		pk   []byte
+		msg  []byte
+		sig  []byte
+	}
+	kinds := []ent{
+		{"honest", pub, msg, sig},
+		{"honest(other signer)", otherPub, otherMsg, otherSig},
+		{"flipped-scalar-bit", pub, msg, flipS},
+		{"other-message", pub, append(append([]byte{}, msg...), 1), sig},
+		{"other-signers-key", otherPub, msg, sig},
+		{"truncated-signature", pub, msg, sig[:63]},
+		{"overlong-signature", pub, msg, append(append([]byte{}, sig...), 0)},
+		{"S>=L", pub, msg, sGeL},
+		{"undecodable-key", undec, msg, sig},
+		{"wrong-length-key", pub[:31], msg, sig},
+	}
+	want := make([]bool, len(kinds))
+	for i, k := range kinds {
+		k := k
+		mon.Try(func() { want[i] = ed25519.Verify(k.pk, k.msg, k.sig) }) // a documented panic (key length) counts as "not valid"
+	}
+	if !want[0] || !want[1] || want[2] || want[7] {
+		mon.Fatalf("ORACLE: mixed-fault entry kinds are not what they are named")
+	}
+	n := len(kinds)
+	total := n * n * n * n
+	step := 1
+	if r.Quick {
+		step = 3 // every third order in the quick tier, offset by the case index
+	}
+	for code := c.Idx % step; code < total; code += step {
+		idx := []int{code % n, code / n % n, code / n / n % n, code / n / n / n}
+		mode := (code / step) % 3 // 0: plain adds, 1: without key expansion, 2: expanded adds where the key allows
+		bv := ed25519.NewBatchVerifier()
+		if mode == 1 {
+			bv.ForceNoPublicKeyExpansion()
+		}
+		all := true
+		var wbits []bool
+		var names []string
+		pan, pmsg := mon.Try(func() {
+			for _, i := range idx {
+				k := kinds[i]
+				if mode == 2 && bytes.Equal(k.pk, pub) {
+					bv.AddExpanded(exp, k.msg, k.sig)
+				} else {
+					bv.Add(k.pk, k.msg, k.sig)
+				}
+				all = all && want[i]
+				wbits = append(wbits, want[i])
+				names = append(names, k.name)
+			}
+		})
+		var gotAll, gotOnly bool
+		var bits []bool
+		if !pan {
+			pan, pmsg = mon.Try(func() {
+				gotAll, bits = bv.Verify(nil)
+				gotOnly = bv.VerifyBatchOnly(nil)
+			})
+		}
+		r.Eval(nil)
+		r.Hist(fmt.Sprintf("mixed-fault-batch/mode%d", mode))
+		det := fmt.Sprintf("entries %v mode=%d: Verify=%v %v, VerifyBatchOnly=%v; single verification says %v", names, mode, gotAll, bits, gotOnly, wbits)
+		switch {
+		case pan:
+			r.Violate("batch/mixed-faults/panic", pmsg+"; "+det, c)
+		case len(bits) != 4 || gotAll != all || gotOnly != all:
+			r.Violate("batch/mixed-faults/flag", det, c)
+		default:
+			for j := range bits {
+				if bits[j] != wbits[j] {
+					r.Violate(fmt.Sprintf("batch/mixed-faults/bit/want=%v", wbits[j]), fmt.Sprintf("entry %d (%s): ", j, names[j])+det, c)
+					break
+				}
+			}
+		}
+	}
+}
+
 func runCase(r *mon.Run, c Case) {
 	if c.Kind == "entropy" {
 		entropyCase(r, c)
+		return
+	}
+	if c.Kind == "mixed-batch" {
+		mixedFaultBatches(r, c)
 		return
 	}
 	seed, msg, ctx := mon.UnHex(c.Seed), mon.UnHex(c.Msg), string(mon.UnHex(c.Ctx))
@@ -580,6 +684,9 @@ func main() {
 	r.Parallel(len(cases), func(i int) { runCase(r, cases[i]) })
 	for i := 0; i < r.Pick(6, 60); i++ {
 		entropyCase(r, Case{Kind: "entropy", Idx: i})
+		if i < 3 {
+			mixedFaultBatches(r, Case{Kind: "mixed-batch", Idx: i})
+		}
 	}
 	r.Finish()
 }
